@@ -814,10 +814,21 @@ impl Brc20ProgDatabase {
             self.latest_block_number = Some((block_number, block_hash));
         }
 
-        self.db_global_values
+        // The recorded maximum must never decrease: after a reorg, histories are still pruned
+        // relative to the highest block that was ever finalised
+        let max_global_block_number = self
+            .db_global_values
             .as_mut()
             .expect(DB_MUTEX_ERROR)
-            .set(MAX_BLOCK_NUMBER_KEY.to_string(), block_number.to_string())?;
+            .get(MAX_BLOCK_NUMBER_KEY.to_string())?
+            .map(|x| x.parse::<u64>().unwrap_or(0))
+            .unwrap_or(0);
+        if block_number > max_global_block_number {
+            self.db_global_values
+                .as_mut()
+                .expect(DB_MUTEX_ERROR)
+                .set(MAX_BLOCK_NUMBER_KEY.to_string(), block_number.to_string())?;
+        }
 
         self.db_block_number_to_hash
             .as_mut()
